@@ -17,6 +17,13 @@ KNOWN = os.path.join(ROOT, "KNOWN_FINDINGS.txt")
 
 # per-check configuration: shards and wall budgets (seconds) per tier; race = also build with -race
 DEFAULT = {"shards": (16, 16), "budget": (600, 7200), "race": False}
+# native go fuzz targets (thorough tier only, additive): (target, seconds)
+FUZZ = {
+    "C04": [("FuzzJulianDay", 25), ("FuzzStep", 25)],
+    "C07": [("FuzzNewSolar", 25)],
+    "C14": [("FuzzFix", 40)],
+}
+
 CHECKS = {
     "C09": {"shards": (4, 8), "budget": (900, 7200), "race": True, "deadlock_is_violation": True},
 }
@@ -144,6 +151,31 @@ def main():
             infra.append("shard %d wrote no part file (worker death); log tail:\n%s" % (i, tail))
             continue
         parts.append(json.load(open(pf)))
+    # ---- native fuzzing (thorough only; cannot be pinned to a seed, the saved input is the reproducible unit)
+    fuzz_report, fuzz_viol = [], []
+    if tier == "thorough":
+        import re
+        for target, secs in FUZZ.get(cid, []):
+            pkg = "./checks/" + cid.lower() + "/"
+            try:
+                r = sh(["go", "test", "-tags", "verif", "-vet=off", "-run", "^$", "-fuzz", "^%s$" % target, "-fuzztime", "%ds" % secs, pkg],
+                       cwd=ROOT, env=goenv(), timeout=secs + 600)
+            except subprocess.TimeoutExpired:
+                infra.append("native fuzz target %s timed out (inconclusive)" % target)
+                continue
+            execs = re.findall(r"execs: (\d+)", r.stdout)
+            rep = {"target": target, "seconds": secs, "execs": int(execs[-1]) if execs else 0, "failed": False}
+            m = re.search(r"VERIF-FUZZ-FAIL prop=(\S+) case=(\{.*?\}) err=(.*)", r.stdout)
+            if m:
+                rep["failed"] = True
+                try:
+                    fuzz_viol.append({"prop": m.group(1), "case": json.loads(m.group(2)), "error": m.group(3)[:800], "via": "native-fuzz " + target})
+                except ValueError:
+                    infra.append("fuzz failure with unreadable case: " + m.group(0)[:300])
+            elif r.returncode != 0:
+                infra.append("native fuzz target %s exited %d: %s" % (target, r.returncode, r.stdout[-600:]))
+            fuzz_report.append(rep)
+            shutil.rmtree(os.path.join(ROOT, "checks", cid.lower(), "testdata", "fuzz"), ignore_errors=True)
     # ---- merge
     subs = {}
     order = []
@@ -214,6 +246,13 @@ def main():
             json.dump({"property_id": cid, "prop": v["prop"], "case": v["case"], "error": v["error"], "via": v.get("via"),
                        "seed": seed, "tier": tier}, open(rp, "w"), ensure_ascii=False, indent=1)
             viol_lines.append((rp, v))
+    for v in fuzz_viol:
+        key = hashlib.sha1((v["prop"] + json.dumps(v["case"], sort_keys=True)).encode()).hexdigest()[:12]
+        rdir = os.path.join(ROOT, "replays", cid)
+        os.makedirs(rdir, exist_ok=True)
+        rp = os.path.join(rdir, "%s-%s.json" % (v["prop"], key))
+        json.dump({"property_id": cid, "prop": v["prop"], "case": v["case"], "error": v["error"], "via": v["via"], "seed": seed, "tier": tier}, open(rp, "w"), ensure_ascii=False, indent=1)
+        viol_lines.append((rp, v))
     known_seen = {}
     for name in order:
         for k, n in subs[name]["known_excluded"].items():
@@ -239,6 +278,7 @@ def main():
                             "failing_evaluations": subs[n]["n_violations"]} for n in order],
         "known_findings_seen": known_seen,
         "shards": nsh,
+        "native_fuzz": fuzz_report,
         "notes": notes,
         "inconclusive": infra,
     }
